@@ -376,5 +376,38 @@ func genExtracted(b *strings.Builder, root, authp, httpio *pkg) {
 		die("auth.PermissionedProxy not found")
 	}
 	w("Definition auth_tag_names : list string := %s.", strList(callStringArgs(pp, "Get")))
-	_ = httpio
+	w("")
+	w("(* package httpio: every close(w.wait) site, with whether it sits inside a sync.Once.Do callback *)")
+	var sites []string
+	for _, fn := range httpio.sortedFiles() {
+		for _, d := range httpio.files[fn].Decls {
+			fd, ok := d.(*ast.FuncDecl)
+			if !ok || fd.Body == nil {
+				continue
+			}
+			var walk func(n ast.Node, guarded bool)
+			walk = func(n ast.Node, guarded bool) {
+				ast.Inspect(n, func(m ast.Node) bool {
+					ce, ok := m.(*ast.CallExpr)
+					if !ok {
+						return true
+					}
+					fs := exprString(ce.Fun)
+					if fs == "close" && len(ce.Args) == 1 && strings.HasSuffix(exprString(ce.Args[0]), ".wait") {
+						sites = append(sites, fmt.Sprintf("(%s, %s)", coqStr(fd.Name.Name), coqBool(guarded)))
+						return false
+					}
+					if strings.HasSuffix(fs, "Once.Do") || strings.HasSuffix(fs, "once.Do") {
+						for _, a := range ce.Args {
+							walk(a, true)
+						}
+						return false
+					}
+					return true
+				})
+			}
+			walk(fd.Body, false)
+		}
+	}
+	w("Definition reader_wait_closes : list (string * bool) := [%s].", strings.Join(sites, "; "))
 }
